@@ -459,10 +459,18 @@ class Get:
             elif it[0] == "n": its.append("INone")
             else: its.append("IEll")
         return "EGet (%s) %s [%s]" % (self.x.coq(car), "true" if self.tuple_ else "false", ";".join(its))
-    def impl(self, env, dtype): return self.x.impl(env, dtype)[self.pyindex()]
+    def implindex(self):
+        """the same index with its integers in the type named by int_kind (numpy integers / 0-d integer tensors are integers for the dense array)"""
+        kind = getattr(self, "int_kind", "int")
+        if kind == "int": return self.pyindex()
+        torch, _ = _imp()
+        conv = {"numpy-int64": lambda v: np.int64(v), "numpy-int32": lambda v: np.int32(v), "tensor0d": lambda v: torch.tensor(int(v))}[kind]
+        idx = self.pyindex()
+        return tuple(conv(v) if isinstance(v, int) else v for v in idx) if self.tuple_ else (conv(idx) if isinstance(idx, int) else idx)
+    def impl(self, env, dtype): return self.x.impl(env, dtype)[self.implindex()]
     def dense(self, env, dtype): return self.x.dense(env, dtype)[self.pyindex()]
-    def desc(self): return {"get": self.x.desc(), "items": [list(map(str, it)) for it in self.items], "tuple": self.tuple_}
-    def to_json(self): return {"get": self.x.to_json(), "items": [list(it) for it in self.items], "tuple": self.tuple_}
+    def desc(self): return {"get": self.x.desc(), "items": [list(map(str, it)) for it in self.items], "tuple": self.tuple_, "int_kind": getattr(self, "int_kind", "int")}
+    def to_json(self): return {"get": self.x.to_json(), "items": [list(it) for it in self.items], "tuple": self.tuple_, "int_kind": getattr(self, "int_kind", "int")}
 
 class Mask:
     name = "EMask"
@@ -476,10 +484,14 @@ class Mask:
         return "EMask (%s) %s" % (self.x.coq(car), nnlist(rows))
     def impl(self, env, dtype):
         torch, _ = _imp()
-        return self.x.impl(env, dtype).apply_mask(torch.tensor(self.rows, dtype=torch.int64))
+        kind = getattr(self, "index_kind", "int64")
+        if kind == "list": idx = [list(r) for r in self.rows]
+        elif kind.startswith("numpy-"): idx = np.array(self.rows, dtype=getattr(np, kind[6:]))
+        else: idx = torch.tensor(self.rows, dtype=getattr(torch, kind))
+        return self.x.impl(env, dtype).apply_mask(idx)
     def dense(self, env, dtype):
         torch, _ = _imp()
         a = self.x.dense(env, dtype)
         return torch.stack([a[tuple(r)] for r in self.rows])          # dense indexing with a list of index rows: one entry per row
-    def desc(self): return {"mask": self.x.desc(), "rows": len(self.rows)}
-    def to_json(self): return {"mask": self.x.to_json(), "rows": self.rows}
+    def desc(self): return {"mask": self.x.desc(), "rows": len(self.rows), "index_kind": getattr(self, "index_kind", "int64")}
+    def to_json(self): return {"mask": self.x.to_json(), "rows": self.rows, "index_kind": getattr(self, "index_kind", "int64")}
